@@ -68,6 +68,10 @@ fn start_contract<const L: usize>()
 #[kani::proof] #[kani::unwind(6)] fn k_tracker_entity_start_l4() { start_contract::<4>(); }
 //# id=K.tracker.entity.start.L5 props=C03,C12,C16 strength=complete shape="parked list L=5, all contents" tier=thorough fns=EntityReactionAccessTracker::start
 #[kani::proof] #[kani::unwind(7)] fn k_tracker_entity_start_l5() { start_contract::<5>(); }
+//# id=K.tracker.entity.start.L6 props=C03,C12,C16 strength=complete shape="parked list L=6, all contents" tier=thorough fns=EntityReactionAccessTracker::start
+#[kani::proof] #[kani::unwind(8)] fn k_tracker_entity_start_l6() { start_contract::<6>(); }
+//# id=K.tracker.entity.start.L7 props=C03,C12,C16 strength=complete shape="parked list L=7, all contents" tier=thorough fns=EntityReactionAccessTracker::start
+#[kani::proof] #[kani::unwind(9)] fn k_tracker_entity_start_l7() { start_contract::<7>(); }
 
 // ---------------------------------------------------------------------------------------------------------------
 // K.entity_world.local: EntityLocal<T> (C16): inside a run of reactor T's own system caused by entity e, get()/get_mut()/entity()
